@@ -364,3 +364,17 @@ Lemma ip_generic rg ra nb cfa : ip (set_sp (set_bp (set_ip rg ra) nb) cfa) = ra.
 Proof. reflexivity. Qed.
 Lemma bp_generic rg ra nb cfa : bp (set_sp (set_bp (set_ip rg ra) nb) cfa) = nb.
 Proof. reflexivity. Qed.
+
+Lemma decode_loop_not_err fuel : forall rs r n e, decode_loop fuel rs r n <> Err e.
+Proof.
+  induction fuel as [|f IH]; intros rs r n e; cbn [decode_loop]; [discriminate|].
+  destruct (r =? 0); [discriminate|]. destruct (n =? 0); [discriminate|].
+  destruct (if r mod n =? 0 then Some rs else swap_tail rs (N.to_nat (8 - n)) (N.to_nat (r mod n)));
+    [apply IH | discriminate].
+Qed.
+
+Lemma decode_not_err cnt enc e : decode cnt enc <> Err e.
+Proof.
+  unfold decode. pose proof (decode_loop_not_err 18 ENCODE_REGISTERS enc 8 e) as H.
+  destruct (decode_loop 18 ENCODE_REGISTERS enc 8); cbn; try discriminate. exact H.
+Qed.
